@@ -96,6 +96,20 @@ def run_for(run, root):
                 continue
             jobs.append((run.prop, root, {m.file: src}))
             meta.append((kind, m))
+    # automatic behaviour-preserving twin: every function-local variable renamed in every file
+    # this property's rules looked at
+    try:
+        from .alpha import alpha_rename
+        files = sorted(set(u.file for u in run.idx.all_units() if u.qual in run.units_analysed))
+        ov = {}
+        for f in files:
+            with open(os.path.join(root, f), 'rb') as fh:
+                ov[f] = alpha_rename(fh.read().decode('utf-8'))
+        if ov:
+            jobs.append((run.prop, root, ov))
+            meta.append(('twin', M('alpha-rename-locals(%s)' % ','.join(os.path.basename(f) for f in files), None, None, None)))
+    except SyntaxError:
+        pass
     for (kind, m), r in zip(meta, _analyse_many(jobs)):
         if r.error:
             st['failures'].append('%s %s: index failed: %s' % (kind, m.name, r.error))
